@@ -182,18 +182,55 @@ func loadProgram(cfg *RunConfig) (*Program, *ssa.Function, []string, error) {
 		Overlay: overlay,
 		Env:     env,
 	}
-	pkgs, err := packages.Load(pcfg, "./"+cfg.Pkg, "./zz_verifmodels")
-	if err != nil {
-		return nil, nil, nil, err
-	}
-	var errs []string
-	packages.Visit(pkgs, nil, func(p *packages.Package) {
-		for _, e := range p.Errors {
-			errs = append(errs, e.Error())
+	// A change under test may alter unexported signatures that *other* harness
+	// files of the package use.  Files that no longer type-check are dropped
+	// (never the file that defines the requested harness, nor the shared
+	// util/refpeer/sym files) and the load is retried.
+	targetFile := ""
+	for _, f := range files {
+		b, _ := os.ReadFile(f)
+		if regexp.MustCompile(`(?m)^func ` + regexp.QuoteMeta(cfg.Harness) + `\(`).Match(b) {
+			targetFile = filepath.Base(f)
 		}
-	})
-	if len(errs) > 0 {
-		return nil, nil, nil, fmt.Errorf("package errors:\n%s", strings.Join(errs, "\n"))
+	}
+	var pkgs []*packages.Package
+	var dropped []string
+	for attempt := 0; ; attempt++ {
+		pkgs, err = packages.Load(pcfg, "./"+cfg.Pkg, "./zz_verifmodels")
+		if err != nil {
+			return nil, nil, nil, err
+		}
+		var errs []string
+		bad := map[string]bool{}
+		packages.Visit(pkgs, nil, func(p *packages.Package) {
+			for _, e := range p.Errors {
+				errs = append(errs, e.Error())
+				if i := strings.Index(e.Pos, ":"); i > 0 {
+					bad[e.Pos[:i]] = true
+				}
+			}
+		})
+		if len(errs) == 0 {
+			break
+		}
+		progress := false
+		for f := range bad {
+			base := filepath.Base(f)
+			if !strings.HasPrefix(base, "zz_verif_") || base == targetFile || strings.Contains(base, "_util") || strings.Contains(base, "_refpeer") || base == "zz_verif_sym.go" || strings.Contains(base, "_reflzh") {
+				continue
+			}
+			if _, ok := overlay[f]; ok {
+				delete(overlay, f)
+				dropped = append(dropped, base)
+				progress = true
+			}
+		}
+		if !progress || attempt > 6 {
+			return nil, nil, nil, fmt.Errorf("package errors:\n%s", strings.Join(errs, "\n"))
+		}
+	}
+	if len(dropped) > 0 {
+		fmt.Fprintf(os.Stderr, "note: harness files dropped because they no longer type-check against the tree: %v\n", dropped)
 	}
 	sprog, spkgs := ssautil.AllPackages(pkgs, ssa.InstantiateGenerics)
 	sprog.Build()
@@ -343,6 +380,9 @@ func runHarness(cfg *RunConfig) (*RunResult, error) {
 						v = &Violation{Kind: pr.Status, Msg: pr.Msg}
 					}
 					key := v.Kind + "|" + v.Label + "|" + classify(v.Msg)
+					if v.Kind == "bound" {
+						key = v.Kind + "|" + v.Label + "|"
+					}
 					if r, ok := vio[key]; ok {
 						r.Count++
 						if !r.HasVec && pr.HasModel {
